@@ -4,10 +4,11 @@ set -e
 export GOFLAGS=-mod=mod GOPROXY=off GOSUMDB=off GOTOOLCHAIN=local
 cd "$(dirname "$0")"
 V=$(pwd)
+R=${VERIF_REPO:-/repo}
 mkdir -p .work/bin .work/ocaml evidence replays
-(cd translator && cp /repo/go.sum . && go build -o $V/.work/bin/translator .)
-rm -rf .work/gen && mkdir -p .work/gen && .work/bin/translator /repo .work/gen
-python3 scripts/xparse.py $(cd /repo && go list -m -f '{{.Dir}}' github.com/zeldovich/go-rpcgen)/rfc1813/prot.x .work/gen/GenRfc.v
+(cd translator && cp $R/go.sum . && go build -o $V/.work/bin/translator .)
+rm -rf .work/gen && mkdir -p .work/gen && .work/bin/translator $R .work/gen
+python3 scripts/xparse.py $(cd $R && go list -m -f '{{.Dir}}' github.com/zeldovich/go-rpcgen)/rfc1813/prot.x .work/gen/GenRfc.v
 for f in .work/gen/*.v; do cmp -s $f coq/Gen/$(basename $f) || cp $f coq/Gen/; done
 scripts/build.sh all
 echo SETUP-OK
